@@ -166,11 +166,13 @@ class C20(core.Check):
             parts.append(s)
             pos[0] += len(s)
 
-        def region(a, b):
-            r = a + ' ' + ''.join(rnd.choice(AL2) for _ in range(rnd.randint(3, 14))) + ' ' + b
+        def region(a, b, reuse=None):
+            r = reuse or a + ' ' + ''.join(rnd.choice(AL2) for _ in range(rnd.randint(3, 14))) + ' ' + b
             r = re.sub(r'\n\s*\n', '\n', r)
             regions.append((pos[0], r))
             emit(r)
+            return r
+        blocks = []
 
         def equation():
             bad = rnd.random() < .5
@@ -181,14 +183,23 @@ class C20(core.Check):
             emit('\n' + ('Next' if bad else 'next') + ' we go on.\n')
         emit('\\usepackage{babel}\n')
         region('Start', 'end.')
-        for k in range(rnd.randint(1, 3)):
-            kind = rnd.choice(['env', 'env', 'select', 'foreign'])
+        for k in range(rnd.randint(1, 4)):
+            kind = rnd.choice(['env', 'env', 'env', 'select', 'foreign'])
             lg = rnd.choice(['german', 'french', 'english', 'ngerman'])     # (placeholder collections as for the main language)
-            if kind == 'env':
+            if kind == 'env' and blocks and rnd.random() < .5:
+                # the very same passage once more: an identical part is submitted twice in one run
+                lg, r = rnd.choice(blocks)
                 emit('\n\\begin{otherlanguage}{%s}\n' % lg)
-                region('Anfang', 'und Ende hier.')
+                region('', '', reuse=r)
+                emit('\n\\end{otherlanguage}\n')
+                cnt['shelltex_repeated_part'] = 1
+            elif kind == 'env':
+                emit('\n\\begin{otherlanguage}{%s}\n' % lg)
+                r = region('Anfang', 'und Ende hier.')
                 if rnd.random() < .5:
                     equation()
+                else:
+                    blocks.append((lg, r))
                 emit('\n\\end{otherlanguage}\n')
             elif kind == 'select':
                 emit('\n\n\\selectlanguage{%s}\n\n' % lg)
@@ -404,7 +415,7 @@ class C20(core.Check):
     def quotas(self, tier):
         return {'fam_single': 20000, 'fam_eq': 10000, 'single_messages': 20000, 'single_accepted_letters': 3000,
                 'eq_messages': 1500, 'shell_runs': 200, 'shell_accept_placeholders': 40, 'shelltex_runs': 100,
-                'shelltex_messages_in_later_parts': 100}
+                'shelltex_messages_in_later_parts': 100, 'shelltex_repeated_part': 15}
 
 
 CHECK = C20
